@@ -39,6 +39,13 @@ Print Assumptions C37_refuted.
      operators | & ; ( ) < > (this clause uses the character set regenerated from `quote`);
    - C37_rejects: a label-like argument that names nothing the rule depends on is an error; single-output forms on
      several outputs and $(exe) of a non-binary are errors; an unknown entry point never expands (error or fatal);
+   - C37_exact_label: a label-like argument expands only if the label as written - package, name and subrepo - is
+     the rule itself or literally one of the labels the rule names as a source, tool or dep; the same package:name in
+     another repository (main repository vs. subrepo, or two subrepos) is rejected (uses the regenerated list of
+     dependency lookups of replaceSequenceLabel);
+   - C37_split_join: for every list of paths over ordinary characters and the operators, shell-splitting the
+     space-joined list of individually quoted paths gives back exactly the paths, whereas quoting the joined list
+     once gives one word;
    - the label parser's fuel never runs out; every pass hands replaceSequence exactly the captured argument. *)
 Definition C37_partial_statement : Prop :=
   (forall w fl inp text ps, wf_world w = true -> replace_sequence w false fl inp = ROk (text, ps) ->
@@ -55,23 +62,36 @@ Definition C37_partial_statement : Prop :=
   /\ (forall w test fl inp lbl_s ep d, resolves w inp lbl_s ep d -> is_nil ep = false -> assoc ep (t_eps d) = None ->
         replace_sequence w test fl inp = RErr \/ replace_sequence w test fl inp = RFatal
         \/ (exists h, replace_sequence w test fl inp = ROk (h, [PRaw h]) /\ snd fl = true))
+  /\ (forall w test fl inp text ps, looks_like_label inp = true -> replace_sequence w test fl inp = ROk (text, ps) ->
+        exists l, C20.try_parse (fst (split_entry_point inp)) (w_pkg w) [] = C20.Parsed l /\
+          (label_key l = t_lbl (w_self w)
+           \/ (In (label_key l) (declared_labels w)
+               /\ exists d, lookup_tgt (label_key l) (w_graph w) = Some d /\ In d (w_graph w) /\ t_lbl d = label_key l)))
+  /\ (forall w test fl inp l, looks_like_label inp = true ->
+        C20.try_parse (fst (split_entry_point inp)) (w_pkg w) [] = C20.Parsed l ->
+        label_key l <> t_lbl (w_self w) -> ~ In (label_key l) (declared_labels w) ->
+        replace_sequence w test fl inp = RErr)
+  /\ (forall ps, forallb name_ok ps = true -> shell_words (join_sp (map quote ps)) = Some ps)
+  /\ (forall p q ps, forallb name_ok (p :: q :: ps) = true -> needs_quote (join_sp (p :: q :: ps)) = true ->
+        shell_words (quote (join_sp (p :: q :: ps))) <> Some (p :: q :: ps))
   /\ (forall w test fl inp, replace_sequence w test fl inp <> RFuel)
   /\ forallb (fun p => Nat.eqb (snd (fst p)) (length (pass_prefix (fst (fst p))))) passes = true.
 
 Theorem C37_partial : C37_partial_statement.
 Proof.
   exact (conj exists_partial (conj one_word (conj one_word_names (conj rejects_label (conj rejects_wrong_count
-        (conj rejects_not_binary (conj rejects_unknown_entry_point (conj never_out_of_fuel passes_offsets_ok)))))))).
+        (conj rejects_not_binary (conj rejects_unknown_entry_point (conj expands_only_exact_dependency (conj rejects_other_subrepo
+        (conj split_join_quote (conj quote_joined_once_wrong (conj never_out_of_fuel passes_offsets_ok)))))))))))).
 Qed.
 Print Assumptions C37_partial.
 
 (* Non-vacuity: a world in no defect class - a source with two outputs (one needing quotes), a dep, a binary tool with
    an entry point - where the theorem's hypotheses hold and its conclusions can be seen by computation. *)
 Example C37_partial_nonvacuous :
-  let far := T (s "q/r", s "far") [s "f1.txt"; s "f;2.txt"] [] [] false in
-  let lib := T (s "p", s "lib") [s "libdir"] [] [(s "main", s "libdir/in.txt")] false in
-  let tool := T (s "t", s "tool") [s "bin/t.sh"] [] [(s "main", s "bin/t.sh")] true in
-  let w := mk_world self_p [ILabel (s "q/r", s "far"); IFile (s "real.txt")] [ILabel (s "t", s "tool")] [(s "p", s "lib")]
+  let far := T (s "q/r", s "far", []) [s "f1.txt"; s "f;2.txt"] [] [] false in
+  let lib := T (s "p", s "lib", []) [s "libdir"] [] [(s "main", s "libdir/in.txt")] false in
+  let tool := T (s "t", s "tool", []) [s "bin/t.sh"] [] [(s "main", s "bin/t.sh")] true in
+  let w := mk_world self_p [ILabel (s "q/r", s "far", []); IFile (s "real.txt")] [ILabel (s "t", s "tool", [])] [(s "p", s "lib", [])]
                     [far; lib; tool] (s "/r") in
   wf_world w = true
   /\ replace_sequence w false locs_flags (s "//q/r:far")
@@ -119,3 +139,37 @@ Example C37_defects_inhabited :
   /\ shell_words (s "p/a b.txt") = Some [s "p/a"; s "b.txt"]
   /\ piece_ok (PFile InTmp (s "p/a b.txt")) = false /\ piece_ok (PFile InTmp (s "p/a;$b")) = false.
 Proof. vm_compute. repeat split; reflexivity. Qed.
+
+(* Non-vacuity of the subrepo and splitting clauses: the rule depends on //path/to:target2 and on
+   ///vendor/x//q:lib (and //q:lib, ///third_party/sub//path/to:target2 exist but are not dependencies). *)
+Example C37_subrepo_nonvacuous :
+  let t2 := T (s "path/to", s "target2", []) [s "t2.txt"] [] [] false in
+  let t2s := T (s "path/to", s "target2", s "third_party/sub") [s "t2.txt"] [] [] false in
+  let libs := T (s "q", s "lib", s "vendor/x") [s "l&1.a"; s "l2.a"] [] [] false in
+  let libm := T (s "q", s "lib", []) [s "l1.a"] [] [] false in
+  let w := mk_world self_p [ILabel (s "path/to", s "target2", []); ILabel (s "q", s "lib", s "vendor/x")] [] []
+                    [t2; t2s; libs; libm] (s "/r") in
+  wf_world w = true
+  /\ replace_sequence w false loc_flags (s "//path/to:target2") = ROk (s "path/to/t2.txt", [PFile InTmp (s "path/to/t2.txt")])
+  /\ replace_sequence w false loc_flags (s "///third_party/sub//path/to:target2") = RErr
+  /\ replace_sequence w false loc_flags (s "@third_party/sub//path/to:target2") = RErr
+  /\ replace_sequence w false locs_flags (s "//q:lib") = RErr
+  /\ replace_sequence w false locs_flags (s "///other//q:lib") = RErr
+  /\ replace_sequence w false locs_flags (s "///vendor/x//q:lib")
+     = ROk (s """q/l&1.a"" q/l2.a", [PFile InTmp (s "q/l&1.a"); PFile InTmp (s "q/l2.a")])
+  /\ replace_sequence w false (false, true, false, true, false) (s "///vendor/x//q:lib")
+     = ROk (s """plz-out/gen/vendor/x/q/l&1.a"" plz-out/gen/vendor/x/q/l2.a",
+            [PFile InRepo (s "plz-out/gen/vendor/x/q/l&1.a"); PFile InRepo (s "plz-out/gen/vendor/x/q/l2.a")])
+  /\ defect_class w locs_flags (s "///vendor/x//q:lib") = None
+  /\ forallb (present w) [PFile InTmp (s "q/l&1.a"); PFile InTmp (s "q/l2.a");
+                          PFile InRepo (s "plz-out/gen/vendor/x/q/l&1.a"); PFile InRepo (s "plz-out/gen/vendor/x/q/l2.a")] = true
+  /\ In (s "q", s "lib", s "vendor/x") (declared_labels w) /\ ~ In (s "q", s "lib", []) (declared_labels w)
+  /\ forallb name_ok [s "q/l&1.a"; s "q/l2.a"] = true
+  /\ join_sp (map quote [s "q/l&1.a"; s "q/l2.a"]) = s """q/l&1.a"" q/l2.a"
+  /\ shell_words (s """q/l&1.a"" q/l2.a") = Some [s "q/l&1.a"; s "q/l2.a"]
+  /\ shell_words (quote (join_sp [s "q/l&1.a"; s "q/l2.a"])) = Some [s "q/l&1.a q/l2.a"].
+Proof.
+  vm_compute. repeat split; try reflexivity.
+  - right. left. reflexivity.
+  - intros [H|[H|[]]]; discriminate H.
+Qed.
